@@ -1,10 +1,11 @@
 """C03 Classes: construction, fields, dispatch, inheritance, super and bound methods."""
 from hypothesis import strategies as st
 
-from ..lang import gen, printer
+from ..lang import gen, printer, shadow
 from ..oracle import compare_model
 from ..runner import Outcome
 from .common import run_model, short
+from . import implicit
 
 PROPERTY = "C03"
 LEVEL = "exploration"
@@ -17,7 +18,8 @@ RULE = ("Hypothesis draws 1-5 classes (inheritance depth <= 4, explicit and impl
         "passed around) in a drawn order, plus undeclared property read/write/invoke inside try. Output is compared "
         "with the reference evaluator on the debug and release workers. Non-trivial: >= 2 classes related by "
         "inheritance and (an overridden method dispatched, or an inherited field accessed from a subclass method, or "
-        "a shadowing field called), judged from the model's trace; distinct by program text.")
+        "a shadowing field called), judged from the model's trace; distinct by program text. "
+        "In one program in four up to two user declarations (variables, parameters, classes) are renamed to builtin class names the program text does not mention (Object, Error, List, ...: pbt/lang/shadow.py globalize): what the language does implicitly (the superclass of a class that names none, the class of a blank catch, literals) must not go through the user's scope.")
 ASSUMPTIONS = ["reference evaluator's class model: ordered field sets collected from the text of init of the class "
                "and its ancestors, single inheritance, lexical super, statics on the class only, field-shadows-method",
                "touching an undeclared field or method must raise PropertyError (read, write and invoke alike)"]
@@ -34,16 +36,31 @@ def cases(tier):
 
 
 def strategy(hazards):
-    return gen.class_program(gen.Cfg(max_depth=3, p_confuse=0, hazards=hazards))
+    # the second component drives pbt/lang/shadow.py globalize: pairs of integers, each pair renames one variable,
+    # parameter or class of the program to the name of a builtin class the program does not mention (empty: no rename)
+    # (known findings: with their hazards on, Object and Error are not among the names handed out)
+    banned = [n for n, h in (("Object", implicit.HAZ_OBJECT), ("Error", implicit.HAZ_ERROR)) if h in hazards]
+    return st.tuples(gen.class_program(gen.Cfg(max_depth=3, p_confuse=0, hazards=hazards)),
+                     st.one_of(st.just([]), st.just([]), st.just([]), st.lists(st.integers(0, 1000), min_size=2, max_size=4)),
+                     st.just(banned))
 
 
 def run_case(case, ctx):
-    prog = case
+    renamed = []
+    if isinstance(case, tuple) and len(case) == 2 and case[0] == "implicit":
+        return implicit.run_scenario(case[1], ctx)
+    if isinstance(case, tuple) and len(case) == 3 and isinstance(case[0], list):
+        prog, gpicks, banned = case
+        if gpicks:
+            prog, renamed = shadow.globalize(prog, gpicks, printer.to_source(prog)[0], banned)
+    else:
+        prog = case  # (replay files written before the renaming pass existed hold the bare program)
     src, lines = printer.to_source(prog)
     res, why = run_model(prog, lines)
     if res is None:
         return Outcome(discarded=why)
-    labels = sorted(res.labels) + ["outcome:" + res.outcome]
+    labels = sorted(res.labels) + ["outcome:" + res.outcome] + (["global-name-shadowed"] if renamed else []) + \
+        ["shadows:" + t for (_o, t) in renamed if t == "Object"]
     nontrivial = "inherit" in res.labels and bool(res.labels & {"override_dispatch", "inherited_field", "shadow_call"})
     if nontrivial:
         labels.append("nontrivial")
@@ -56,3 +73,7 @@ def run_case(case, ctx):
         if fail is not None:
             break
     return Outcome(key=src, nontrivial=nontrivial, labels=labels, failure=fail, sample=short(src, 1200), runs=runs)
+
+
+def extra(tier, ctx):
+    return [implicit.run_scenario(n, ctx) for n in implicit.scenarios_of(PROPERTY)]
